@@ -47,6 +47,6 @@ Proof. exact read_packet1_segmentation. Qed.
 (* literals the model repeats from the source are the ones the translator extracts from the current source (gen/Tables.v) *)
 From VGen Require Import Tables.
 From VModel Require Import AuditSM.
-From VProofs Require Import TieProofs.
+From VProofs Require Import TieC09.
 Theorem c09_tie_protocol_mismatch : protocol_mismatch_text = str_bytes src_protocol_mismatch_text.
 Proof. exact tie_protocol_mismatch. Qed.
